@@ -127,6 +127,9 @@ def unixMilli (f : Fields) : Int := (jdn f.yr f.mon f.day - 2440588) * 86400000 
 def minusMs (a b : Fields) : Int :=
   if packDate a = packDate b then timeAsMs a - timeAsMs b else unixMilli a - unixMilli b
 
+/-- `SuDate.WeekDay` (Sunday = 0): Go takes it from `time.Time.Weekday` -/
+def weekDay (f : Fields) : Int := (jdn f.yr f.mon f.day + 1) % 7
+
 def cmpInt (a b : Int) : Ordering := if a < b then .lt else if b < a then .gt else .eq
 
 /-- `SuDate.Compare` on the packed words -/
